@@ -2,7 +2,9 @@ import XrlC06.Core.Basic
 /-!
 # Hand model of the compound (`_CP`) functions and of the refractive-index entry points
 
-Mirrors, as they are in /repo's current tree,
+Mirrors two bodies of each file — `value == 0.0` as the failure test (as shipped) and `tmp_error != NULL` (cs_cp.c since /repo b08b629 = repair
+C06-1; refractive_indices.c after the proposed repair notes/proposed_fixes/C06-7.diff): `cpOf`/`cpOfFixed`, `refrReOf`/`refrReOfFixed`, … .  Which one
+the working tree has is decided on every run from the AST (`cp_template_conforms`, `refr_template_conforms`).  Line numbers below: the as-shipped text,
 
 * `src/cs_cp.c:20-60`   — the one body `CS_CP_BEGIN … CS_CP_END` shared by the 21 `_CP` functions
                           (macros `CS_CP_F`, `CS_CP_FF`, `CS_CP_FFF`, lines 62-83, instantiated on lines 85-105);
@@ -272,6 +274,100 @@ def refr2Of (r : Resolved α) (fi aw cs : Int → Slot → M (α × Slot)) (E de
   let ((z, error), live) ← refrOf r fi aw cs E density error live
   pure (((z.1, z.2), error), live)
 
+/-! ### the refractive-index bodies after the proposed repair notes/proposed_fixes/C06-7.diff
+
+Same repair as C06-1 for `cs_cp.c`: `REFR_BEGIN` declares `xrl_error *tmp_error = NULL;`, every elemental call receives `&tmp_error`, and the
+failure test is `if (tmp_error != NULL) { xrl_propagate_error(error, tmp_error); REFR_END return …; }` instead of `value == 0.0`.
+A successful value of exactly 0 is then an ordinary term of the sum.  The check recognises which bodies the working tree has from the AST
+(`refr_template_conforms`) and runs the model with the same switch (`c06-model rfixed`). -/
+
+/-- one elemental call of the repaired bodies: `x = g(Elements[i], …, &tmp_error); if (tmp_error != NULL) { xrl_propagate_error(error, tmp_error); …` —
+`inl` = the caller's slot after the propagation (the early return follows), `inr` = the value (tmp_error still NULL) -/
+def callTmp (g : Int → Slot → M (α × Slot)) (Z : Int) (error : Slot) : M (Sum Slot α) := do
+  let (x, tmp_error) ← g Z Slot.empty
+  match tmp_error with
+  | .full e => do
+    let error ← propagateErr error e
+    pure (.inl error)
+  | _ => pure (.inr x)
+
+/-- `Refractive_Index_Re` loop after the repair -/
+def reLoopFixed (fi aw : Int → Slot → M (α × Slot)) (E : α) : Els α → α → Slot → M (Sum Slot (α × Slot))
+  | [], rv, error => pure (.inr (rv, error))
+  | (Z, w) :: rest, rv, error => do
+    match ← callTmp fi Z error with                           -- fi = Fi(Elements[i], E, &tmp_error); if (tmp_error != NULL) …
+    | .inl error => pure (.inl error)
+    | .inr f =>
+      match ← callTmp aw Z error with                         -- atomic_weight = AtomicWeight(Elements[i], &tmp_error); if (tmp_error != NULL) …
+      | .inl error => pure (.inl error)
+      | .inr a => do
+        let t ← deltaTerm Z w f a E
+        reLoopFixed fi aw E rest (rv + t) error
+
+def refrReOfFixed (r : Resolved α) (fi aw : Int → Slot → M (α × Slot)) (E density : α) (error : Slot) (live : Nat) :
+    M ((α × Slot) × Nat) := do
+  match ← refrBegin r E density error live with
+  | .inl (error, live) => pure (((0.0 : α), error), live)
+  | .inr (els, density, live) =>
+    match ← reLoopFixed fi aw E els (0.0 : α) error with
+    | .inl error => pure (((0.0 : α), error), r.release live)
+    | .inr (rv, error) => pure (((1.0 : α) - rv * density, error), r.release live)
+
+def imLoopFixed (cs : Int → Slot → M (α × Slot)) : Els α → α → Slot → M (Sum Slot (α × Slot))
+  | [], rv, error => pure (.inr (rv, error))
+  | (Z, w) :: rest, rv, error => do
+    match ← callTmp cs Z error with                           -- cs = CS_Total(Elements[i], E, &tmp_error); if (tmp_error != NULL) …
+    | .inl error => pure (.inl error)
+    | .inr c => imLoopFixed cs rest (rv + c * w) error
+
+def refrImOfFixed (r : Resolved α) (cs : Int → Slot → M (α × Slot)) (E density : α) (error : Slot) (live : Nat) :
+    M ((α × Slot) × Nat) := do
+  match ← refrBegin r E density error live with
+  | .inl (error, live) => pure (((0.0 : α), error), live)
+  | .inr (els, density, live) =>
+    match ← imLoopFixed cs els (0.0 : α) error with
+    | .inl error => pure (((0.0 : α), error), r.release live)
+    | .inr (rv, error) => do
+      let v ← imFinal rv density E
+      pure ((v, error), r.release live)
+
+def cxLoopFixed (fi aw cs : Int → Slot → M (α × Slot)) (E : α) : Els α → α × α → Slot → M (Sum Slot ((α × α) × Slot))
+  | [], acc, error => pure (.inr (acc, error))
+  | (Z, w) :: rest, (delta, im), error => do
+    match ← callTmp fi Z error with
+    | .inl error => pure (.inl error)
+    | .inr f =>
+      match ← callTmp aw Z error with
+      | .inl error => pure (.inl error)
+      | .inr a =>
+        match ← callTmp cs Z error with
+        | .inl error => pure (.inl error)
+        | .inr c => do
+          let t ← deltaTerm Z w f a E
+          cxLoopFixed fi aw cs E rest (delta + t, im + c * w) error
+
+def refrOfFixed (r : Resolved α) (fi aw cs : Int → Slot → M (α × Slot)) (E density : α) (error : Slot) (live : Nat) :
+    M (((α × α) × Slot) × Nat) := do
+  match ← refrBegin r E density error live with
+  | .inl (error, live) => pure ((((0.0 : α), (0.0 : α)), error), live)
+  | .inr (els, density, live) =>
+    match ← cxLoopFixed fi aw cs E els ((0.0 : α), (0.0 : α)) error with
+    | .inl error => pure ((((0.0 : α), (0.0 : α)), error), r.release live)
+    | .inr ((delta, im), error) => do
+      let imv ← imFinal im density E
+      pure ((((1.0 : α) - delta * density, imv), error), r.release live)
+
+/-- `Refractive_Index2` is untouched by the repair: it forwards to (the repaired) `Refractive_Index` -/
+def refr2OfFixed (r : Resolved α) (fi aw cs : Int → Slot → M (α × Slot)) (E density : α) (error : Slot) (live : Nat) :
+    M (((α × α) × Slot) × Nat) := do
+  let ((z, error), live) ← refrOfFixed r fi aw cs E density error live
+  pure (((z.1, z.2), error), live)
+
+def refrReFixed (parse : Option (Parsed α)) (nist : Option (Nist α)) := refrReOfFixed (α := α) (resolve parse nist)
+def refrImFixed (parse : Option (Parsed α)) (nist : Option (Nist α)) := refrImOfFixed (α := α) (resolve parse nist)
+def refrFixed (parse : Option (Parsed α)) (nist : Option (Nist α)) := refrOfFixed (α := α) (resolve parse nist)
+def refr2Fixed (parse : Option (Parsed α)) (nist : Option (Nist α)) := refr2OfFixed (α := α) (resolve parse nist)
+
 def refrRe (parse : Option (Parsed α)) (nist : Option (Nist α)) := refrReOf (α := α) (resolve parse nist)
 def refrIm (parse : Option (Parsed α)) (nist : Option (Nist α)) := refrImOf (α := α) (resolve parse nist)
 def refr (parse : Option (Parsed α)) (nist : Option (Nist α)) := refrOf (α := α) (resolve parse nist)
@@ -421,6 +517,63 @@ def expectedCx : List String := [
   "  fi = Fi(Elements[i], E, error);"] ++ zeroTest "fi" "rv" ++ [
   "  atomic_weight = AtomicWeight(Elements[i], error);"] ++ zeroTest "atomic_weight" "rv" ++ [
   "  cs = CS_Total(Elements[i], E, error);"] ++ zeroTest "cs" "rv" ++ [
+  "  im += cs * massFractions[i];",
+  deltaLine "delta",
+  "}"] ++ freeLines "" ++ [
+  "rv.re = 1.0 - (delta * density);",
+  "rv.im = im * density * 9.8663479e-09 / E;",
+  "return rv;"]
+
+/-! the three bodies after notes/proposed_fixes/C06-7.diff -/
+
+def refrDeclsFixed : List String := refrDecls ++ ["xrl_error * tmp_error = NULL;"]
+
+def errTest (ret : String) : List String := [
+  "  if (tmp_error != NULL) {",
+  "    xrl_propagate_error(error, tmp_error);"] ++ freeLines "    " ++ [
+  "    return " ++ ret ++ ";",
+  "  }"]
+
+def expectedReFixed : List String := [
+  "struct compoundData * cd = NULL;",
+  "struct compoundDataNIST * cdn = NULL;",
+  "double rv = 0.0;",
+  "int i;"] ++ refrDeclsFixed ++ resolveLines true "rv" ++ guardLines ++ [
+  "for (i = 0; i < nElements; i++) {",
+  "  double fi = 0.0;",
+  "  double atomic_weight = 0.0;",
+  "  fi = Fi(Elements[i], E, &tmp_error);"] ++ errTest "0.0" ++ [
+  "  atomic_weight = AtomicWeight(Elements[i], &tmp_error);"] ++ errTest "0.0" ++ [
+  deltaLine "rv",
+  "}"] ++ freeLines "" ++ [
+  "return 1.0 - (rv * density);"]
+
+def expectedImFixed : List String := [
+  "struct compoundData * cd = NULL;",
+  "struct compoundDataNIST * cdn = NULL;",
+  "int i;",
+  "double rv = 0.0;"] ++ refrDeclsFixed ++ resolveLines true "rv" ++ guardLines ++ [
+  "for (i = 0; i < nElements; i++) {",
+  "  double cs = 0.0;",
+  "  cs = CS_Total(Elements[i], E, &tmp_error);"] ++ errTest "0.0" ++ [
+  "  rv += cs * massFractions[i];",
+  "}"] ++ freeLines "" ++ [
+  "return rv * density * 9.8663479e-09 / E;"]
+
+def expectedCxFixed : List String := [
+  "struct compoundData * cd = NULL;",
+  "struct compoundDataNIST * cdn = NULL;",
+  "int i;",
+  "xrlComplex rv = {0.0, 0.0};",
+  "double delta = 0.0;",
+  "double im = 0.0;"] ++ refrDeclsFixed ++ resolveLines true "rv" ++ guardLines ++ [
+  "for (i = 0; i < nElements; i++) {",
+  "  double fi = 0.0;",
+  "  double atomic_weight = 0.0;",
+  "  double cs = 0.0;",
+  "  fi = Fi(Elements[i], E, &tmp_error);"] ++ errTest "rv" ++ [
+  "  atomic_weight = AtomicWeight(Elements[i], &tmp_error);"] ++ errTest "rv" ++ [
+  "  cs = CS_Total(Elements[i], E, &tmp_error);"] ++ errTest "rv" ++ [
   "  im += cs * massFractions[i];",
   deltaLine "delta",
   "}"] ++ freeLines "" ++ [
